@@ -91,14 +91,14 @@ func (v Val) Bytes(bo binary.ByteOrder) []byte {
 	return nil
 }
 
-func ASCII(s string) Val            { return Val{Type: TASCII, B: append([]byte(s), 0)} }
-func ASCIIRaw(b []byte) Val         { return Val{Type: TASCII, B: b} }
-func Short(x ...uint16) Val         { return Val{Type: TShort, U16: x} }
-func Long(x ...uint32) Val          { return Val{Type: TLong, U32: x} }
-func Rational(x ...[2]uint32) Val   { return Val{Type: TRational, Rat: x} }
-func SRational(x ...[2]uint32) Val  { return Val{Type: TSRational, Rat: x} }
-func ByteV(x ...byte) Val           { return Val{Type: TByte, B: x} }
-func Undefined(b []byte) Val        { return Val{Type: TUndefined, B: b} }
+func ASCII(s string) Val           { return Val{Type: TASCII, B: append([]byte(s), 0)} }
+func ASCIIRaw(b []byte) Val        { return Val{Type: TASCII, B: b} }
+func Short(x ...uint16) Val        { return Val{Type: TShort, U16: x} }
+func Long(x ...uint32) Val         { return Val{Type: TLong, U32: x} }
+func Rational(x ...[2]uint32) Val  { return Val{Type: TRational, Rat: x} }
+func SRational(x ...[2]uint32) Val { return Val{Type: TSRational, Rat: x} }
+func ByteV(x ...byte) Val          { return Val{Type: TByte, B: x} }
+func Undefined(b []byte) Val       { return Val{Type: TUndefined, B: b} }
 
 // Dir kinds
 const (
@@ -121,7 +121,7 @@ type Dir struct {
 	Next    *Dir // next-IFD chain (IFD0 -> IFD1)
 }
 
-func (d *Dir) Add(tag uint16, v Val)  { d.Entries = append(d.Entries, Entry{Tag: tag, Val: v}) }
+func (d *Dir) Add(tag uint16, v Val) { d.Entries = append(d.Entries, Entry{Tag: tag, Val: v}) }
 func (d *Dir) AddChild(tag uint16, c *Dir) {
 	d.Entries = append(d.Entries, Entry{Tag: tag, Val: Long(0), Child: c})
 }
@@ -131,14 +131,14 @@ func (d *Dir) Sort() {
 
 // Layout parameters for serialisation.
 type Layout struct {
-	Big        bool // byte order
-	FirstOff   int  // offset of the first directory (>= 8)
-	MaxPad     int  // padding between blocks: 0..MaxPad
-	Order      int  // 0 = depth-first typical, 1 = values first then sub-dirs, 2 = random topological
-	R          *core.Rng
-	PadByte    byte
-	RandomPad  bool
-	MinLen     int // trailing padding up to this length (the library's header search needs 32 bytes)
+	Big       bool // byte order
+	FirstOff  int  // offset of the first directory (>= 8)
+	MaxPad    int  // padding between blocks: 0..MaxPad
+	Order     int  // 0 = depth-first typical, 1 = values first then sub-dirs, 2 = random topological
+	R         *core.Rng
+	PadByte   byte
+	RandomPad bool
+	MinLen    int // trailing padding up to this length (the library's header search needs 32 bytes)
 }
 
 type block struct {
